@@ -8,7 +8,9 @@ CONSTANTS MaxUnits, LineLens, OutSet, Defects, ChunkedBody, ExtraCalls
 
 VARIABLES lens, sent, emitted, extra, last
 vars == <<lens, sent, emitted, extra, last>>
-view == <<lens, sent, emitted, extra>>
+\* `last` is hidden from the fingerprint, except for whether the step failed a clause: otherwise a failing step that
+\* leaves the rest of the state unchanged would be merged with its predecessor and never be evaluated by Refines
+view == <<lens, sent, emitted, extra, last.fails # {}>>
 
 RECURSIVE LSeqs(_)
 LSeqs(k) == IF k = 0 THEN {<<>>} ELSE LSeqs(k - 1) \cup { Append(s, x) : s \in { t \in LSeqs(k - 1) : Len(t) = k - 1 }, x \in LineLens }
